@@ -11,6 +11,7 @@ import (
 	"net"
 	"os"
 	"sync"
+	"sync/atomic"
 	"testing"
 	"time"
 
@@ -231,6 +232,8 @@ func replayConnCaseMode(kr *keyring, c *connCase, parked, byref, latewrite bool)
 			h = sealedHello(stdOuter, stdInner, empty, 7, "s1", false)
 		case "CH2sni":
 			h = sealedHello(stdOuter, setExt(stdInner, "sni", "other"), empty, 7, "s1", true)
+		case "CH2sniKelvin":
+			h = sealedHello(stdOuter, setExt(stdInner, "sni", "privKelvin"), empty, 7, "s1", true)
 		case "CH2alpn":
 			if byref { // the referenced outer ALPN changed: the reconstructed inner hello no longer has the first one's list
 				h = sealedHello(setExt(stdOuter, "alpn", "ao"), stdInner, empty, 7, "s1", true)
@@ -493,6 +496,7 @@ func TestEchConnHistories(t *testing.T) {
 	}
 	results := make([]string, len(cases))
 	var wg sync.WaitGroup
+	var hung atomic.Int64
 	sem := make(chan struct{}, 16)
 	for i := range cases {
 		wg.Add(1)
@@ -500,23 +504,40 @@ func TestEchConnHistories(t *testing.T) {
 		go func(i int) {
 			defer wg.Done()
 			defer func() { <-sem }()
-			results[i] = replayConnCase(kr, &cases[i], false, false)
+			// every replay under a real-time watchdog: the scripted transport never blocks for good, so a replay that does not
+			// finish means a Conn call is spinning or deadlocked (it cannot be stopped: the driver reports and exits at the end)
+			guard := func(f func() string) string {
+				ch := make(chan string, 1)
+				go func() { ch <- f() }()
+				select {
+				case d := <-ch:
+					return d
+				case <-time.After(3 * watchdogLimit()):
+					hung.Add(1)
+					noteHang()
+					return "the replay does not finish: a Conn call neither returns nor waits for the transport (spinning or deadlocked)"
+				}
+			}
+			results[i] = guard(func() string { return replayConnCase(kr, &cases[i], false, false) })
 			if results[i] == "" && parkedMode(&cases[i]) {
-				if d := replayConnCase(kr, &cases[i], true, false); d != "" {
+				if d := guard(func() string { return replayConnCase(kr, &cases[i], true, false) }); d != "" {
 					results[i] = "(Read parked before the Write) " + d
 				}
 			}
 			if results[i] == "" && parkedMode(&cases[i]) {
-				if d := replayConnCaseMode(kr, &cases[i], false, false, true); d != "" {
+				if d := guard(func() string { return replayConnCaseMode(kr, &cases[i], false, false, true) }); d != "" {
 					results[i] = "(the transport Write of the HelloRetryRequest returns after the client's answer was read) " + d
 				}
 			}
 			if results[i] == "" && cases[i].First == "acc" && hasCH2(&cases[i]) {
-				if d := replayConnCase(kr, &cases[i], false, true); d != "" {
+				if d := guard(func() string { return replayConnCase(kr, &cases[i], false, true) }); d != "" {
 					results[i] = "(supported_groups and ALPN by ech_outer_extensions reference) " + d
 				}
 			}
 		}(i)
+		if hung.Load() > 0 {
+			break
+		}
 	}
 	wg.Wait()
 	bad := 0
@@ -529,4 +550,8 @@ func TestEchConnHistories(t *testing.T) {
 		}
 	}
 	w.Write(Ev{"summary": true, "cases": len(cases), "bad": bad})
+	if hung.Load() > 0 { // spinning goroutines cannot be stopped
+		w.Close()
+		os.Exit(0)
+	}
 }
